@@ -16,6 +16,8 @@ claimed = {
  "C15": ("block stack and lookups: CreateChild puts one new block in front of the parent's (shared, unchanged) blocks; GetVariable / SubstituteVariableDirectly / FetchCursor act on the innermost block that declares the name and touch no other block (ghost model of the sync.Map-backed block maps); control-flow mapping of WHILE / function calls is not yet under contract", "4 C15"),
  "C19": ("no-panic sweep: index/slice bounds, nil dereference, integer division, type assertion and make() obligations generated without annotations for ~210 functions (all built-in functions of function.go, the FORMAT interpreter, OFFSET/LIMIT, cursors, analytic helpers, lib/file handlers); those that discharge (about 900) are claimed, the others are listed as unclaimed; loaders' rectangularity and hangs are outside", "4 C19"),
  "C17": ("window frames (WindowFrameSet and its two helpers: one frame per row with the bounds the ROWS clause prescribes, whole partition only without ORDER BY or for UNBOUNDED..UNBOUNDED) and NTILE (closed form of the tile of every row, for all partition sizes and tile counts) are proved; sort-key equivalence/ordering lemmas are shared with C07; ranking, FIRST/LAST/NTH_VALUE, LAG/LEAD and aggregates OVER are not yet under contract", "4 C17"),
+ "C20": ("cacheViewFromFile proved against a ghost protocol: a table already cached is served from the cache without touching the file unless an update is requested on a copy loaded for reading (the documented reload, which disposes the old copy first and loads once under an update handler); a miss loads exactly once; every handler opened on a failing path is closed; cached FileInfo.ForUpdate agrees with the handler kind. ViewMap (sync.Map) operations and ReleaseResources clearing the cache at COMMIT/ROLLBACK are assumed contracts; cross-process interleavings are outside", "4 C20"),
+ "C04": ("partial: SortValue/SortValues.EquivalentTo and the sort-key lemmas (shared with C07), the GROUP BY bucket assembly worker (every bucket's rows are exactly the indices recorded for its key, in order) and the coercion ladder behind value equality (C06) are proved; SerializeKey / SerializeComparisonKeys / Distinguish build strings (uninterpreted in this engine) and the aggregate functions are not under contract", "4 C04"),
  "C16": ("Cursor.Fetch/Close/IsOpen/IsInRange/Count/Pointer proved against an abstract (snapshot, position) view for all positions and offsets, with machine integer arithmetic modelled exactly", "4 C16"),
 }
 na = {
